@@ -308,7 +308,7 @@ Proof.
   - apply same_cols in Hs. destruct Hs as [_ [_ Hs]]. cbn [sized_tree].
     induction Hs as [|x y l l' [H1 H2] _ IH]; [reflexivity|].
     cbn [forallb]. inversion H; subst. rewrite (H4 _ H2), (IH H5), H1. reflexivity.
-  - destruct Hs as [_ Hs]. cbn [sized_tree]. apply IHw. exact Hs.
+  - destruct Hs as [Eo Hs]. inversion Eo; subst. cbn [sized_tree]. rewrite (IHw _ Hs). reflexivity.
   - destruct Hs as [_ Hs]. cbn [sized_tree]. apply IHw. exact Hs.
   - match goal with Hs : same_shape _ (Frame _ ?h' ?f' _) |- _ =>
       destruct Hs as [Hb [Hh Hf]]; cbn [sized_tree]; rewrite (IHw _ Hb); f_equal; [f_equal|];
@@ -422,7 +422,8 @@ Proof.
          cbn [x_flow x_fixed x_pack xc padding_info i_box pa_wt pa_wamt pa_minw pa_left pa_right pa_at pa_aamt]; try (intros _); try congruence.
   1: destruct (is_given wt); cbn [fst]; congruence.
   1: { intro Hz1. rewrite !view_eq. cbn [interp v_info]. unfold wnode. cbn [node_of n_info kidviews kids_with map].
-       rewrite !nth_info_0. cbn [padding_info i_box]. apply sized_ibox; auto. }
+       rewrite !nth_info_0. cbn [padding_info i_box]. apply sized_ibox; auto.
+       cbn [sized_tree] in Hz1. apply andb_true_iff in Hz1 as [_ Hz1]. exact Hz1. }
   (* Filler *)
   1-5: destruct Hs as [Eo Hs]; inversion Eo; subst.
   1-3,5: unfold xlayer, xselfof; cbn [xkids xnode_of snd map]; intros; reflexivity.
@@ -589,7 +590,7 @@ Section XSingle.
   Hypothesis K_kids : forall c, xkids (K c) = [xview c].
   Hypothesis K_node : forall c c' ki, xnode_of (K c) ki = xnode_of (K c') ki.
   Hypothesis K_set : forall c i c', set_child (K c) i c' = K c'.
-  Hypothesis K_sized : forall c, sized_tree (K c) = sized_tree c.
+  Hypothesis K_sized : forall c c', sized_tree c' = sized_tree c -> sized_tree (K c') = sized_tree (K c).
   Let N (c : widget) (xi : xinfo) : node := fst (xnode_of (K c) [xi]).
   Let S (c : widget) (xi : xinfo) : xinfo := snd (xnode_of (K c) [xi]).
   Hypothesis K_info : forall c xi, n_info (N c xi) = xc (S c xi).
@@ -636,7 +637,7 @@ Section XSingle.
       intros _. rewrite K_set.
       destruct (IH eq_refl) as [Hz2 [Hieq [Hfit' Hasked]]]. clear IH.
       set (c2 := m_w (v_move v cs c' r')) in *. fold xi in Hieq, Hasked.
-      assert (Hzk : sized_tree (K c2) = false) by (rewrite K_sized, Hz2, <- K_sized; exact Hz).
+      assert (Hzk : sized_tree (K c2) = false) by (rewrite (K_sized c c2 Hz2); exact Hz).
       rewrite (K_xview c2 Hzk). cbn [fst snd]. unfold N, S. rewrite (K_node c2 c). fold (N c (snd (xview c2))) (S c (snd (xview c2))). fold (N c xi) (S c xi).
       set (xi2 := snd (xview c2)) in *. set (v2 := fst (xview c2)) in *.
       assert (Hsizes : forall q, In q (n_place (N c xi) s) -> p_size q = cs).
@@ -646,7 +647,7 @@ Section XSingle.
           destruct (p_idx q <? 0); [discriminate Hkids|]. rewrite nthz_nil in Hkids. discriminate Hkids. }
         rewrite (Hfun q Hq Hq0). exact Hps. }
       destruct (K_cong c xi xi2 s cs Hn Hsok Hsizes Hieq) as [Epl [Efit Einfo]].
-      split; [rewrite !K_sized; exact Hz2|]. split; [exact Einfo|]. split.
+      split; [apply K_sized; exact Hz2|]. split; [exact Einfo|]. split.
       + change [v2] with (set_nth_v [v] 0 v2).
         apply (xstep_fits (K c) (K c2) _ _ [v] 0 v2 s Hf).
         * rewrite Efit. exact Hn.
@@ -692,7 +693,8 @@ Proof. intros [H _]. exact H. Qed.
 (* ---- AttrMap ---- *)
 Lemma xmove_ok_attrmap c : XMoveOK c -> XMoveOK (AttrMap c).
 Proof.
-  apply (xmove_ok_single (fun c => AttrMap c)); try reflexivity; try (intros; exact I).
+  apply (xmove_ok_single (fun c => AttrMap c)); try reflexivity; try (intros; exact I);
+    try (intros ? ? Hsz; cbn [sized_tree]; rewrite Hsz; reflexivity).
   - (* target *)
     intros c0 xi s col row i cs c' r' nf _ _ Hm E. cbn in E, Hm. unfold attrmap_move in E. inversion E; subst.
     rewrite nth_xinfo_0 in *. split; [exact Hm|]. split; [unfold zlen; cbn; qlia|]. split; [left; reflexivity|].
@@ -714,7 +716,8 @@ Qed.
 
 Lemma xmove_ok_boxadapter c h : XMoveOK c -> XMoveOK (BoxAdapter c h).
 Proof.
-  apply (xmove_ok_single (fun c => BoxAdapter c h)); try reflexivity; try (intros; exact I).
+  apply (xmove_ok_single (fun c => BoxAdapter c h)); try reflexivity; try (intros; exact I);
+    try (intros ? ? Hsz; cbn [sized_tree]; rewrite Hsz; reflexivity).
   - intros c0 xi. cbn [xnode_of fst map]. apply (so_target (node_of (BoxAdapter c0 h) [xc xi]) [xi]).
     + apply (boxadapter_target (map xc [xi]) h).
     + intros s col row i cs c' r' nf E. cbn [node_of n_move] in E. unfold boxadapter_move in E.
@@ -743,7 +746,8 @@ Qed.
 
 Lemma xmove_ok_filler c a b c0 d e f g : XMoveOK c -> XMoveOK (Filler c a b c0 d e f g).
 Proof.
-  apply (xmove_ok_single (fun c => Filler c a b c0 d e f g)); try reflexivity; try (intros; exact I).
+  apply (xmove_ok_single (fun c => Filler c a b c0 d e f g)); try reflexivity; try (intros; exact I);
+    try (intros ? ? Hsz; cbn [sized_tree]; rewrite Hsz; reflexivity).
   - intros c1 xi. cbn [xnode_of fst map]. apply (so_target (node_of (Filler c1 a b c0 d e f g) [xc xi]) [xi]).
     + apply (filler_target (map xc [xi])).
     + intros s col row i cs c' r' nf E. cbn [node_of n_move] in E. unfold filler_move in E.
@@ -783,7 +787,7 @@ Qed.
 Lemma xpadding_target o xi : XMoveTarget (xpadding_node o xi) [xi].
 Proof.
   intros s col row i cs c' r' nf Hf Hok Hm E. destruct (is_fixed s) eqn:Efx.
-  - destruct (xpadding_fixed_inv [xi] o s Efx Hf) as [Ev [Hl [Hr [Ecs _]]]]. rewrite nth_xinfo_0 in Ev.
+  - destruct (xpadding_fixed_inv [xi] o s Efx Hf) as [Ev [Hl [Hr _]]]. rewrite nth_xinfo_0 in Ev.
     unfold xpadding_node in *. cbn [n_move n_place n_info] in *. rewrite Efx in *. rewrite Ev in *.
     destruct (i_hasmove (xc xi)) eqn:Eh; cbn [negb] in E; [|discriminate]. inversion E; subst.
     rewrite nth_xinfo_0. split; [exact Eh|]. split; [unfold zlen; cbn; qlia|]. split; [left; reflexivity|].
@@ -802,7 +806,8 @@ Qed.
 
 Lemma xmove_ok_padding c a b c0 d e f g : XMoveOK c -> XMoveOK (Padding c a b c0 d e f g).
 Proof.
-  apply (xmove_ok_single (fun c => Padding c a b c0 d e f g)); try reflexivity; try (intros; exact I).
+  apply (xmove_ok_single (fun c => Padding c a b c0 d e f g)); try reflexivity; try (intros; exact I);
+    try (intros ? ? Hsz; cbn [sized_tree]; rewrite Hsz; reflexivity).
   - intros c1 xi. apply xpadding_target.
   - intros c1 xi s col row. cbn [xnode_of fst]. rewrite nth_xinfo_0. unfold xpadding_node. cbn [n_move].
     destruct (is_fixed s).
@@ -814,21 +819,22 @@ Proof.
     set (o := PadOpts a b c0 d e f g) in *.
     destruct Hieq as [[Es [Ec [Em Eb]]] [Efl [Efx [Epw [Eph Er]]]]].
     destruct (is_fixed s) eqn:Efs.
-    + destruct (xpadding_fixed_inv [xi] o s Efs Hfit) as [Ev [Hl [Hr [Ecs [Hxf [Epk1 Epk2]]]]]]. rewrite nth_xinfo_0 in *.
+    + destruct (xpadding_fixed_inv [xi] o s Efs Hfit) as [Ev [Hl [Hr [_ [_ Hkind]]]]]. rewrite nth_xinfo_0 in *.
       assert (Ev' : xpadding_values_fixed o xi' = xpadding_values_fixed o xi).
       { unfold xpadding_values_fixed. rewrite Epw. reflexivity. }
-      assert (Ecs0 : cs = fixed_size).
+      assert (Ecs0 : cs = xpadding_csize_fixed o).
       { unfold xpadding_node in Hs. cbn [n_place] in Hs. rewrite Efs, Ev in Hs.
-        rewrite <- (Hs _ (or_introl eq_refl)). cbn [p_size]. exact Ecs. }
-      subst cs. specialize (Eph is_fixed_fixed).
+        rewrite <- (Hs _ (or_introl eq_refl)). reflexivity. }
       unfold xpadding_node in *. cbn [n_place n_fits] in *. rewrite Efs in *. rewrite Ev', Efx, Epw.
       split; [reflexivity|]. split; [reflexivity|].
-      assert (Eg : is_given (pa_wt o) = false).
-      { rewrite Ev in Hfit. destruct (pa_wt o); cbn in *; try reflexivity.
-        repeat (apply andb_true_iff in Hfit as [Hfit ?]); discriminate. }
       unfold xieq, xpadding_info, xpadding_pack, padding_info. cbn [xc x_flow x_fixed x_pack i_sel i_hascur i_hasmove i_box i_rows].
-      rewrite Eg, Efl, Efx, Epw, Eph, Efs. cbn [fst snd].
-      split; [repeat split; auto|]. repeat split; auto. intro H; discriminate H.
+      rewrite Efl, Efx, Epw, Efs.
+      destruct Hkind as [[Eg [Ecf _]]|[Eg [Ecf Hw1]]]; rewrite Eg; cbn [fst snd].
+      * rewrite Ecs0, Ecf in Eph. rewrite (Eph is_fixed_fixed).
+        split; [repeat split; auto|]. repeat split; auto. intro H; discriminate H.
+      * rewrite Ecs0, Ecf in Er. assert (Hnf : is_fixed (pa_wamt o, None) = false) by (unfold is_fixed; cbn [fst]; qlia).
+        cbn [fst snd] in Er. rewrite (Er Hnf eq_refl).
+        split; [repeat split; auto|]. repeat split; auto. intro H; discriminate H.
     + unfold xpadding_node in *. cbn [n_place n_fits] in *. rewrite Efs in *.
       split; [reflexivity|]. split; [reflexivity|].
       unfold xieq, xpadding_info, xpadding_pack, padding_info. cbn [xc x_flow x_fixed x_pack i_sel i_hascur i_hasmove i_box i_rows].
